@@ -228,20 +228,24 @@ class BlockNode(Node):
                 template_name=stack_item.source_name,
             )
 
+        block_drop = BlockDrop(
+            token=self.token,
+            context=context,
+            buffer=buffer,
+            name=self.name,
+            parent=stack_item.parent,
+        )
+
         ctx = context.copy(
             token=self.token,
-            namespace={
-                "block": BlockDrop(
-                    token=self.token,
-                    context=context,
-                    buffer=buffer,
-                    name=self.name,
-                    parent=stack_item.parent,
-                )
-            },
+            namespace={"block": block_drop},
             carry_loop_iterations=True,
             block_scope=True,
         )
+
+        # `block.super` is rendered where the overriding block is rendered. Inside its
+        # loops, for the loop iteration limit.
+        block_drop.context = ctx
 
         try:
             return stack_item.block.block.render(ctx, buffer)
@@ -289,20 +293,24 @@ class BlockNode(Node):
                 template_name=stack_item.source_name,
             )
 
+        block_drop = BlockDrop(
+            token=self.token,
+            context=context,
+            buffer=buffer,
+            name=self.name,
+            parent=stack_item.parent,
+        )
+
         ctx = context.copy(
             token=self.token,
-            namespace={
-                "block": BlockDrop(
-                    token=self.token,
-                    context=context,
-                    buffer=buffer,
-                    name=self.name,
-                    parent=stack_item.parent,
-                )
-            },
+            namespace={"block": block_drop},
             carry_loop_iterations=True,
             block_scope=True,
         )
+
+        # `block.super` is rendered where the overriding block is rendered. Inside its
+        # loops, for the loop iteration limit.
+        block_drop.context = ctx
         try:
             return await stack_item.block.block.render_async(ctx, buffer)
         except LiquidError as err:
